@@ -155,6 +155,9 @@ def run_ensemble(rng, obs):
     ck(not bad_cons, 'every cost call of every member satisfies the constraints', first=bad_cons[:1], cons=cons)
     if not reused:
         ck(all(int(i) <= maxiter for i in allI), 'every member honours the ensemble\'s generation limit', iters=list(map(int, allI)), maxiter=maxiter)
+    if evm is not None:
+        # the user's evaluation monitor stays a well-formed record: one cost per parameter vector, the entries it came with still in front
+        ck(len(evm._x) == len(evm._y), 'the evaluation monitor holds one cost per recorded parameter vector', x_records=len(evm._x), y_records=len(evm._y), legacy=legacy)
     msgs = s.Terminated(all=True, info=True)
     ck(all(bool(m) for m in msgs), 'every member stopped with a stop message', messages=[str(m)[:60] for m in msgs])
     # first evaluated point of each member (serial map, run-to-completion: members run one after another)
@@ -300,8 +303,10 @@ def run_generators(rng, obs):
         lb = [round(rng.uniform(-3, 0), 1) for _ in range(d)]; ub = [l + rng.choice([1.0, 4.0]) for l in lb]
         data = [[rng.uniform(l, u) for l, u in zip(lb, ub)] for _ in range(rng.randint(0, 3))]
         rtol = rng.choice([None, None, 0.5, 2.0, -0.5])
-        pts = fillpts(list(lb), list(ub), n, data=[list(p) for p in data] or None, **({} if rtol is None else {'rtol': rtol}))
+        mine = [list(p) for p in data]
+        pts = fillpts(list(lb), list(ub), n, data=mine or None, **({} if rtol is None else {'rtol': rtol}))
         obs.desc['rtol'] = rtol
+        ck(mine == [list(p) for p in data], 'the legacy points handed to fillpts are left as they were', before=[list(p) for p in data], after=mine[:6])
         ck(len(pts) == n and all(l - 1e-12 <= v <= u + 1e-12 for p in pts for v, l, u in zip(p, lb, ub)), 'space-filling points stay within their ranges',
            lb=lb, ub=ub, pts=pts)
         obs.desc.update({'lb': lb, 'ub': ub, 'npts': n, 'ndata': len(data)})
